@@ -134,3 +134,15 @@ def register(check, not_yet):
           "to the Var they denote (core / local / alias / special form), auto-gensyms one symbol per template and fresh per template and per read.",
           "Patterns and templates are enumerated (8 + 4). The reader is given runtime.resolve_alias as resolver, as the importer and REPL do.",
           "CrossHair (z3) symbolic execution of compiled destructuring / syntax-quote forms vs nth/get oracle", "DESIGN.md section 4 C09", "A:crosshair")
+    check("C14", "other",
+          "Partial, bounded symbolic verification: (1) importer._get_basilisp_bytecode is interpreted by PySym over a symbolic byte "
+          "string of <= 14 bytes (flattened byte encoding) and symbolic mtime/size < 2^32: accepted iff the 12 header bytes are exactly "
+          "magic+mtime+size, every other input (incl. every truncation 0..11) is rejected with an exception class that exec_module "
+          "catches (read from its AST) before marshal.loads is reached; write-then-read and header truncation also under CrossHair; "
+          "(2) keyword/keyword_from_hash/hash_kw by PySym with two uninterpreted per-process hash functions: a keyword from cached code "
+          "is identical, equal and hash-equal to the one the reading process creates; (3) a real cache file truncated at sampled offsets "
+          "and with perturbed header fields goes through the real import path in a subprocess: recompiled, correct, cache rewritten; a "
+          "two-process replay under different PYTHONHASHSEEDs backs (2).",
+          "Outside: truncation inside the marshalled payload as a solver question (C), whole-namespace cache-vs-source equivalence, "
+          "atomic rewrite, 64-bit hash collisions. marshal.loads contract (EOFError on truncation) validated by the runs in (3).",
+          "SMT (z3) over PySym interpretation of the real header codec and keyword intern code; CrossHair; subprocess replays", "DESIGN.md section 4 C14", "B:pysym + A:crosshair")
